@@ -123,8 +123,8 @@ EXPORT errno_t _strstr_s_chk(char *dest, rsize_t dmax, const char *src,
         }
     }
     if (unlikely(slen > dmax)) { /* now check the actual lengths */
-        len = strlen(src);
-        dlen = strlen(dest);
+        len = strnlen_s(src, slen);
+        dlen = strnlen_s(dest, dmax);
         if (len > dmax || len > dlen)
             return RCNEGATE(ESNOTFND);
     }
